@@ -78,48 +78,48 @@ Theorem C11_prefix_refuted : escapes cfg_prefix.
 Proof. exact prefix_escapes. Qed.
 Print Assumptions C11_prefix_refuted.
 
-Theorem C11_prefix_refuted_hardlink_cwd : escapes (mkCfg false true true true true true).
+Theorem C11_prefix_refuted_hardlink_cwd : escapes (mkCfg false true true true true true true).
 Proof. exact refuted_hardlink_cwd. Qed.
 Print Assumptions C11_prefix_refuted_hardlink_cwd.
 
-Theorem C11_prefix_refuted_raw_absolute_title : escapes (mkCfg true false true true true true).
+Theorem C11_prefix_refuted_raw_absolute_title : escapes (mkCfg true false true true true true true).
 Proof. exact refuted_abs_title. Qed.
 Print Assumptions C11_prefix_refuted_raw_absolute_title.
 
 Theorem C11_prefix_refuted_link_replaces_working_directory :
-  lookup (st_fs (fst (pushes (mkCfg true true false true true true) false wd0 cwd0 (mkStore fs1 []) os_replace_wd))) wd0
+  lookup (st_fs (fst (pushes (mkCfg true true false true true true true) false wd0 cwd0 (mkStore fs1 [] []) os_replace_wd))) wd0
   <> Some NDir.
 Proof. exact refuted_replace_wd. Qed.
 Print Assumptions C11_prefix_refuted_link_replaces_working_directory.
 
 (* directories created or entered through a link (named blob below a link) *)
-Theorem C11_prefix_refuted_directory_through_link : escapes (mkCfg true true true false true true).
+Theorem C11_prefix_refuted_directory_through_link : escapes (mkCfg true true true false true true true).
 Proof. exact refuted_dir_through_link. Qed.
 Print Assumptions C11_prefix_refuted_directory_through_link.
 
 (* regular entry / named blob written through a final link whose raw target leaves the tree *)
-Theorem C11_prefix_refuted_write_through_link : escapes (mkCfg true true true true false true).
+Theorem C11_prefix_refuted_write_through_link : escapes (mkCfg true true true true false true true).
 Proof. exact refuted_write_through_link. Qed.
 Print Assumptions C11_prefix_refuted_write_through_link.
 
-Theorem C11_prefix_refuted_blob_through_link : escapes (mkCfg true true true true false true).
+Theorem C11_prefix_refuted_blob_through_link : escapes (mkCfg true true true true false true true).
 Proof. exact refuted_blob_through_link. Qed.
 Print Assumptions C11_prefix_refuted_blob_through_link.
 
 (* unpack directory reached through a link (neither of the last two repairs) *)
-Theorem C11_prefix_refuted_unpack_through_link : escapes (mkCfg true true true false false true).
+Theorem C11_prefix_refuted_unpack_through_link : escapes (mkCfg true true true false false true true).
 Proof. exact refuted_title_through_link. Qed.
 Print Assumptions C11_prefix_refuted_unpack_through_link.
 
 (* (the earlier witness "directory entry on top of a link is chmod'ed through it" is gone: directory
    modes are now applied after the last entry and only to paths that are still directories) *)
 Example C11_example_remode_skips_links :
-  snd (fst (pushes cfg_fixed true wd0 cwd0 (mkStore fs0 []) os_remode), snd (pushes cfg_fixed true wd0 cwd0 (mkStore fs0 []) os_remode)) = [true] /\
-  view_at (st_fs (fst (pushes cfg_fixed true wd0 cwd0 (mkStore fs0 []) os_remode))) [b "r"] = view_at fs0 [b "r"].
+  snd (fst (pushes cfg_fixed true wd0 cwd0 (mkStore fs0 [] []) os_remode), snd (pushes cfg_fixed true wd0 cwd0 (mkStore fs0 [] []) os_remode)) = [true] /\
+  view_at (st_fs (fst (pushes cfg_fixed true wd0 cwd0 (mkStore fs0 [] []) os_remode))) [b "r"] = view_at fs0 [b "r"].
 Proof. exact remode_skips_links. Qed.
 
 (* os.Chtimes through a freshly unpacked link sets the times of a file outside *)
-Theorem C11_prefix_refuted_times_through_link : escapes (mkCfg true true true true true false).
+Theorem C11_prefix_refuted_times_through_link : escapes (mkCfg true true true true true false true).
 Proof. exact refuted_touch. Qed.
 Print Assumptions C11_prefix_refuted_times_through_link.
 
@@ -131,7 +131,7 @@ Example C11_example_inv1 : Inv wd0 fs1.
 Proof. exact inv_fs1. Qed.
 
 Example C11_example_replace_wd_rejected :
-  pushes cfg_fixed false wd0 cwd0 (mkStore fs1 []) os_replace_wd = (mkStore fs1 [], [false]).
+  pushes cfg_fixed false wd0 cwd0 (mkStore fs1 [] []) os_replace_wd = (mkStore fs1 [] [], [false]).
 Proof. exact replace_wd_fixed. Qed.
 
 Example C11_example_ordinary :
@@ -200,8 +200,126 @@ Print Assumptions C11_entry_through_link_rejected.
 (* audit F3: without "no inode shared with the outside" the statement fails on the repaired store *)
 Theorem C11_shared_inode_refuted :
   inside wd0 [b "victim"] = false /\
-  snd (pushes cfg_fixed false wd0 cwd0 (mkStore fs2 []) [PBlob (b "old") 7%N]) = [true] /\
-  view_at (st_fs (fst (pushes cfg_fixed false wd0 cwd0 (mkStore fs2 []) [PBlob (b "old") 7%N]))) [b "victim"]
+  snd (pushes cfg_fixed false wd0 cwd0 (mkStore fs2 [] []) [PBlob (b "old") 7%N]) = [true] /\
+  view_at (st_fs (fst (pushes cfg_fixed false wd0 cwd0 (mkStore fs2 [] []) [PBlob (b "old") 7%N]))) [b "victim"]
   <> view_at fs2 [b "victim"].
 Proof. exact refuted_shared_inode. Qed.
 Print Assumptions C11_shared_inode_refuted.
+
+(* manifests (extension round): Store.Push of a manifest restores the named layers whose content
+   the store holds - each one an ordinary named-blob push in the current tree, so
+   C11_confined_partial covers histories with manifests; a hostile layer title ends the push *)
+Theorem C11_manifest_outside_layer_rejected :
+  forall (g : cfg) (wd : path) (s : store) (t : str) (c c' : N) (r : list (str * N)),
+    t <> [] -> existsb (str_eqb t) (st_names s) = false -> fetch s c = FSome c' ->
+    inside wd (lex_loc wd t) = false ->
+    restore_layers g wd s ((t, c) :: r) = (s, false).
+Proof. exact manifest_outside_layer_rejected. Qed.
+Print Assumptions C11_manifest_outside_layer_rejected.
+
+Example C11_example_manifest :
+  snd (run0 cfg_fixed os_manifest) = [true; true; true; true; false; false] /\
+  view_at (fst (run0 cfg_fixed os_manifest)) [b "r"; b "w"; b "second"] = VFile (enc 41 420) 0%N /\
+  view_at (fst (run0 cfg_fixed os_manifest)) [b "r"; b "w"; b "m"; b "third"] = VFile (enc 51 420) 0%N /\
+  view_at (fst (run0 cfg_fixed os_manifest)) [b "r"; b "w"; b "absent"] = VNone /\
+  view_at (fst (run0 cfg_fixed os_manifest)) [b "r"; b "w"; b "x"] = VFile (enc 52 420) 0%N /\
+  view_at (fst (run0 cfg_fixed os_manifest)) [b "r"; b "w"; b "never"] = VNone /\
+  view_at (fst (run0 cfg_fixed os_manifest)) [b "victim"] = view_at fs0 [b "victim"].
+Proof. exact manifest_ok. Qed.
+
+Example C11_example_manifest_stale_content :
+  snd (run0 cfg_fixed os_manifest_stale) = [true; true; false] /\
+  view_at (fst (run0 cfg_fixed os_manifest_stale)) [b "r"; b "w"; b "n1"] = VFile (enc 54 420) 0%N /\
+  view_at (fst (run0 cfg_fixed os_manifest_stale)) [b "r"; b "w"; b "copy"] = VNone /\
+  view_at (fst (run0 cfg_fixed os_manifest_stale)) [b "r"; b "w"; b "later"] = VNone.
+Proof. exact manifest_stale. Qed.
+
+(* the process's current directory has no influence on what the repaired store does (in the
+   unrepaired code relative hard-link targets were taken from it: C11_prefix_refuted_hardlink_cwd) *)
+Theorem C11_cwd_irrelevant :
+  forall (pres : bool) (wd cwd1 cwd2 : path) (os : list pushop) (s : store),
+    pushes cfg_fixed pres wd cwd1 s os = pushes cfg_fixed pres wd cwd2 s os.
+Proof. exact pushes_cwd. Qed.
+Print Assumptions C11_cwd_irrelevant.
+
+(* an Lstat (kernel walk, last element not followed) of a path whose proper parents are not links
+   sees exactly what the tree holds at that lexical location - the justification for modelling the
+   store's Lstat checks as look-ups *)
+Theorem C11_lstat_is_lookup :
+  forall (f : fsys) (p : path) (fuel nl : nat),
+    lexreal f [] p = true ->
+    match walk fuel f nl [] (Nms p) false with
+    | WFile q i => q = p /\ lookup f p = Some (NFile i)
+    | WSym q d a cs => q = p /\ lookup f p = Some (NSym d a cs)
+    | WNoEnt q => q = p /\ lookup f p = None
+    | WDir q => q = p
+    | _ => True
+    end.
+Proof. exact lstat_is_lookup. Qed.
+Print Assumptions C11_lstat_is_lookup.
+
+(* archives that fail (gzip verification / broken tar stream / tar digest mismatch) are operations of
+   the histories C11_confined_partial quantifies over (PDirF) *)
+Example C11_example_failing_archives :
+  snd (run0 cfg_fixed os_failing) = [false; false; false] /\
+  view_at (fst (run0 cfg_fixed os_failing)) [b "r"; b "w"; b "g"] = VDir 493%N 0%N /\
+  view_at (fst (run0 cfg_fixed os_failing)) [b "r"; b "w"; b "g"; b "d"] = VNone /\
+  view_at (fst (run0 cfg_fixed os_failing)) [b "r"; b "w"; b "t"; b "d"] = VDir 448%N 0%N /\
+  view_at (fst (run0 cfg_fixed os_failing)) [b "r"; b "w"; b "t"; b "d"; b "f"] = VFile (enc 7 420) 0%N /\
+  view_at (fst (run0 cfg_fixed os_failing)) [b "r"; b "w"; b "u"; b "d"] = VDir 320%N 0%N.
+Proof. exact failing_ok. Qed.
+
+(* a working directory that does not exist yet (audit F2a): PreInv = Inv, or Inv0 (the working
+   directory is missing, its ancestors are real directories, nothing below it).  The first push
+   that gets that far creates it; everything outside stays untouched throughout.  Partial: titles
+   that denote the working directory itself are excluded (such a named blob would create a
+   regular file where the working directory should be) *)
+Theorem C11_confined_missing_wd_partial :
+  forall (wd : path) (pres : bool) (cwd : path) (os : list pushop) (s s' : store) (oks : list bool),
+    PreInv wd (st_fs s) -> Forall (op_ok wd) os ->
+    pushes cfg_fixed pres wd cwd s os = (s', oks) ->
+    PreInv wd (st_fs s') /\
+    (forall p, inside wd p = false -> view_at (st_fs s') p = view_at (st_fs s) p).
+Proof. exact pushes_keeps0. Qed.
+Print Assumptions C11_confined_missing_wd_partial.
+
+Example C11_example_inv0 : Inv0 wd0 fs3.
+Proof. exact inv0_fs3. Qed.
+
+Example C11_example_first_push_creates_wd :
+  snd (pushes cfg_fixed false wd0 cwd0 (mkStore fs3 [] []) os_first_push) = [false; true; true] /\
+  lookup (st_fs (fst (pushes cfg_fixed false wd0 cwd0 (mkStore fs3 [] []) os_first_push))) wd0 = Some NDir /\
+  view_at (st_fs (fst (pushes cfg_fixed false wd0 cwd0 (mkStore fs3 [] []) os_first_push))) [b "victim"] = view_at fs3 [b "victim"].
+Proof. exact first_push_ok. Qed.
+
+(* seed C11-r3m2: a per-store memory of checked directories (cfg flag fixK = false) lets a
+   three-step history escape; the repaired store walks the path again and refuses *)
+Theorem C11_prefix_refuted_cached_checked_directories : escapes (mkCfg true true true true true true false).
+Proof. exact refuted_cached_dir. Qed.
+Print Assumptions C11_prefix_refuted_cached_checked_directories.
+
+Example C11_example_revisit_history_refused :
+  snd (run0 cfg_fixed os_cached_dir) = [true; true; false] /\
+  view_at (fst (run0 cfg_fixed os_cached_dir)) [b "r"; b "victim"] = view_at fs0 [b "r"; b "victim"] /\
+  view_at (fst (run0 cfg_fixed os_cached_dir)) [b "r"; b "w"; b "a"; b "e"] = VSym (b "q/..").
+Proof. exact cached_dir_fixed. Qed.
+
+(* ... and without the side condition: PreInv3 adds the third state InvF "a regular file sits where
+   the working directory should be" (what a named blob titled like the missing working directory
+   leaves behind; pushes below it fail, a failed verification removes it again).  For every
+   history, from a tree in any of the three states: everything outside the working directory is
+   untouched and the tree stays in one of the three states *)
+Theorem C11_confined_missing_wd :
+  forall (wd : path) (pres : bool) (cwd : path) (os : list pushop) (s s' : store) (oks : list bool),
+    PreInv3 wd (st_fs s) ->
+    pushes cfg_fixed pres wd cwd s os = (s', oks) ->
+    PreInv3 wd (st_fs s') /\
+    (forall p, inside wd p = false -> view_at (st_fs s') p = view_at (st_fs s) p).
+Proof. exact pushes_keeps3. Qed.
+Print Assumptions C11_confined_missing_wd.
+
+Example C11_example_wd_as_file :
+  snd (pushes cfg_fixed false wd0 cwd0 (mkStore fs3 [] []) os_wd_as_file) = [true; false; false; false; true] /\
+  lookup (st_fs (fst (pushes cfg_fixed false wd0 cwd0 (mkStore fs3 [] []) os_wd_as_file))) wd0 = Some NDir /\
+  view_at (st_fs (fst (pushes cfg_fixed false wd0 cwd0 (mkStore fs3 [] []) os_wd_as_file))) [b "victim"] = view_at fs3 [b "victim"].
+Proof. exact wd_as_file_ok. Qed.
